@@ -4,10 +4,12 @@
 package main
 
 import (
+	"errors"
 	"fmt"
 	"math/rand"
 	"os"
 	"sort"
+	"strings"
 	"time"
 
 	"io"
@@ -17,6 +19,7 @@ import (
 	"github.com/metrico/cloki-config/config"
 	"github.com/metrico/qryn/ctrl"
 	ctrllogger "github.com/metrico/qryn/ctrl/logger"
+	"verif/harness/gluectrl"
 	"verif/harness/gluemaint"
 	"verif/harness/hx"
 )
@@ -32,6 +35,7 @@ type Dbo struct {
 	TTLPolicy []TTLElem `json:"ttl_policy"`
 	TTLDays   int       `json:"ttl_days"`
 	Policy    string    `json:"policy"`
+	DB        string    `json:"db,omitempty"` // the database (Name) this object configures; "" = the history's only database
 }
 
 // Parsed: what time.ParseDuration says about one timeout text (the model takes the parser as an oracle).
@@ -58,6 +62,20 @@ type Glue struct {
 	Connects int    `json:"connects"`
 	Boot     int    `json:"boot"`     // ctrl: bootstrap statements (CREATE / SHOW CREATE DATABASE) the server saw
 	SrvErrs  []string `json:"srv_errs,omitempty"`
+	// kind "init": func initDB of package main (verbatim copy) with ctrl.Init recorded and ctrl.Rotate the real one
+	InitFails bool `json:"init_fails,omitempty"` // input: ctrl.Init returns an error
+	Init      *InitObs `json:"init,omitempty"`
+}
+
+// InitObs: what initDB did
+type InitObs struct {
+	Panicked      bool   `json:"panicked"`
+	PanicText     string `json:"panic_text"`
+	InitCalls     int    `json:"init_calls"`
+	RotateCalls   int    `json:"rotate_calls"`
+	InitFirst     bool   `json:"init_first"`   // Init had returned before Rotate was called
+	SameCfg       bool   `json:"same_cfg"`     // both got the configuration initDB was given
+	Projects      string `json:"projects"`     // the project names passed, joined by ","
 }
 
 var srv *tcpServer
@@ -82,7 +100,10 @@ func ctrlOnce(f *fake, g *Glue, fault *Fault) (log []Call, failed bool, pnc stri
 	g.Env, g.EnvOut = []EnvVar{}, []Dbo{}
 	base := toBase(g.Dbos)
 	for i := range base {
-		base[i].Host, base[i].Port, base[i].Name = "127.0.0.1", srv.port(), "qryn_test"
+		base[i].Host, base[i].Port = "127.0.0.1", srv.port()
+		if g.Dbos[i].DB == "" {
+			base[i].Name = "qryn_test"
+		}
 		base[i].User, base[i].Password = "default", ""
 	}
 	g.Parsed = parseTable(g.Dbos)
@@ -100,13 +121,114 @@ func ctrlOnce(f *fake, g *Glue, fault *Fault) (log []Call, failed bool, pnc stri
 	return f.log, failed, pnc
 }
 
+// initOnce: func initDB of package main, verbatim, on a configuration with the databases of g: boolEnv decides whether
+// anything happens, ctrl.Init is recorded (and fails when told to), ctrl.Rotate is the real one over TCP.
+func initOnce(f *fake, g *Glue, fault *Fault) (log []Call, failed bool, pnc string) {
+	if !glueGenerated {
+		return nil, true, "glue not generated: build the harness through checks/c19.py"
+	}
+	if srv == nil {
+		var err error
+		if srv, err = newTCPServer(); err != nil {
+			return nil, true, "fake server: " + err.Error()
+		}
+		ctrllogger.Logger.SetOutput(io.Discard)
+	}
+	f.log, f.n, f.fault = nil, 0, fault
+	srv.mu.Lock()
+	srv.f, srv.boot, srv.errs = f, nil, nil
+	srv.mu.Unlock()
+	if g.Dbos == nil {
+		g.Dbos = []Dbo{}
+	}
+	if g.Env == nil {
+		g.Env = []EnvVar{}
+	}
+	g.EnvOut = []Dbo{}
+	base := toBase(g.Dbos)
+	for i := range base {
+		base[i].Host, base[i].Port = "127.0.0.1", srv.port()
+		if g.Dbos[i].DB == "" {
+			base[i].Name = "qryn_test"
+		}
+		base[i].User, base[i].Password = "default", ""
+	}
+	g.Parsed = parseTable(g.Dbos)
+	for _, b := range base { // every configured database exists on the server (and is reported) even if no statement reaches it
+		f.use(dbKey(b.Name))
+	}
+	f.use("")
+	obs := &InitObs{}
+	g.Init = obs
+	cfg := clconfig.New(clconfig.CLOKI_READER, nil, "", "")
+	cfg.Setting.DATABASE_DATA = base
+	same := true
+	projects := []string{}
+	gluectrl.InitHook = func(c *clconfig.ClokiConfig, project string) error {
+		obs.InitCalls++
+		same = same && c == cfg
+		projects = append(projects, project)
+		if g.InitFails {
+			return errors.New("injected: ctrl.Init failed")
+		}
+		return nil
+	}
+	initReturned := false
+	gluectrl.RotateHook = func(c *clconfig.ClokiConfig, project string) error {
+		obs.RotateCalls++
+		obs.InitFirst = initReturned
+		same = same && c == cfg
+		projects = append(projects, project)
+		return ctrl.Rotate(c, project)
+	}
+	for _, k := range append([]string{"OMIT_CREATE_TABLES"}, envVars...) {
+		os.Unsetenv(k)
+	}
+	for _, kv := range g.Env {
+		os.Setenv(kv.K, kv.V)
+	}
+	// initReturned: Init has returned by the time Rotate is called iff its call count is 1 then
+	wrapInit := gluectrl.InitHook
+	gluectrl.InitHook = func(c *clconfig.ClokiConfig, project string) error {
+		err := wrapInit(c, project)
+		initReturned = true
+		return err
+	}
+	p := hx.Catch(func() { initDB(cfg) })
+	for _, kv := range g.Env {
+		os.Unsetenv(kv.K)
+	}
+	obs.Panicked, obs.PanicText = p != "", p
+	obs.SameCfg = same
+	obs.Projects = strings.Join(projects, ",")
+	srv.mu.Lock()
+	g.Boot, g.SrvErrs = len(srv.boot), srv.errs
+	srv.f = nil
+	srv.mu.Unlock()
+	f.fault = nil
+	return f.log, obs.Panicked, ""
+}
+
 var envVars = []string{"CLICKHOUSE_DB", "CLUSTER_NAME", "CLICKHOUSE_SERVER", "CLICKHOUSE_PORT", "CLICKHOUSE_AUTH",
 	"ADVANCED_SAMPLES_ORDERING", "CLICKHOUSE_PROTO", "SELF_SIGNED_CERT", "key", "SAMPLES_DAYS", "STORAGE_POLICY"}
+
+// dbKey: the fake's database for a configured database name: the names the harness gives to distinguished databases
+// start with "vdb_"; every other name (qryn, cloki, CLICKHOUSE_DB ...) means the history's only database "".
+func dbKey(name string) string {
+	if strings.HasPrefix(name, "vdb_") {
+		return name
+	}
+	return ""
+}
 
 func toBase(dbos []Dbo) []config.ClokiBaseDataBase {
 	out := []config.ClokiBaseDataBase{}
 	for _, d := range dbos {
-		o := config.ClokiBaseDataBase{Name: "qryn", Host: "localhost", Port: 9000,
+		name := "qryn"
+		if d.DB != "" {
+			name = d.DB
+		}
+		o := config.ClokiBaseDataBase{Name: name, Host: "localhost", Port: 9000,
 			ClusterName: d.Cluster, TTLDays: d.TTLDays, StoragePolicy: d.Policy}
 		for _, e := range d.TTLPolicy {
 			o.TTLPolicy = append(o.TTLPolicy, struct {
@@ -122,7 +244,7 @@ func toBase(dbos []Dbo) []config.ClokiBaseDataBase {
 func fromBase(base []config.ClokiBaseDataBase) []Dbo {
 	out := []Dbo{}
 	for _, b := range base {
-		d := Dbo{Cluster: b.ClusterName, TTLDays: b.TTLDays, Policy: b.StoragePolicy, TTLPolicy: []TTLElem{}}
+		d := Dbo{Cluster: b.ClusterName, TTLDays: b.TTLDays, Policy: b.StoragePolicy, TTLPolicy: []TTLElem{}, DB: dbKey(b.Name)}
 		for _, e := range b.TTLPolicy {
 			d.TTLPolicy = append(d.TTLPolicy, TTLElem{e.Timeout, e.MoveTo})
 		}
@@ -152,6 +274,9 @@ func glueOnce(f *fake, g *Glue, fault *Fault) (log []Call, failed bool, pnc stri
 	if g.Kind == "ctrl" {
 		return ctrlOnce(f, g, fault)
 	}
+	if g.Kind == "init" {
+		return initOnce(f, g, fault)
+	}
 	if !glueGenerated {
 		return nil, true, "glue not generated: build the harness through checks/c19.py"
 	}
@@ -161,6 +286,7 @@ func glueOnce(f *fake, g *Glue, fault *Fault) (log []Call, failed bool, pnc stri
 	g.Connects = 0
 	gluemaint.Connect = func(dbObject *config.ClokiBaseDataBase, database bool) (clickhouse.Conn, error) {
 		g.Connects++
+		f.use(dbKey(dbObject.Name))
 		return f, nil
 	}
 	if g.Dbos == nil {
@@ -385,6 +511,62 @@ func genGlueSeq(r *rand.Rand, id int) Case {
 				g.Dbos = cur // DATABASE_DATA came from a configuration file: portCHEnv leaves it alone
 			}
 		}
+		run := Run{Glue: g}
+		if r.Intn(100) < 25 {
+			h := f.clone()
+			gg := *g
+			log, _, _ := glueOnce(h, &gg, nil)
+			run.Fault = &Fault{At: r.Intn(len(log) + 1), Eff: r.Intn(10) < 3}
+		}
+		gg := *g
+		glueOnce(f, &gg, run.Fault)
+		c.Runs = append(c.Runs, run)
+	}
+	return c
+}
+
+// genInitSeq: a history of 1..4 process starts: func initDB of package main on a configuration with one to three
+// databases (each with a state of its own on the server; two objects may name the same database), the boolEnv
+// variable ("key"; OMIT_CREATE_TABLES itself is not what boolEnv reads), a failing ctrl.Init, faults.
+func genInitSeq(r *rand.Rand, id int) Case {
+	c := Case{ID: id, Class: "glue-init"}
+	f := newFake()
+	dbNames := []string{"vdb_a", "vdb_b", "vdb_c"}
+	n := 1 + r.Intn(3)
+	cur := []Dbo{}
+	for i := 0; i < n; i++ {
+		d := genDbo(r, r.Intn(4) == 0)
+		d.DB = dbNames[r.Intn(len(dbNames))]
+		cur = append(cur, d)
+	}
+	if n > 1 {
+		c.Class += "+multi"
+	}
+	genKey := func() []EnvVar {
+		out := []EnvVar{}
+		switch r.Intn(10) {
+		case 0:
+			out = append(out, EnvVar{"key", []string{"yes", "true", "1", "y"}[r.Intn(4)]})
+		case 1:
+			out = append(out, EnvVar{"key", []string{"maybe", "TRUE", "2"}[r.Intn(3)]})
+		case 2:
+			out = append(out, EnvVar{"key", []string{"no", "0", "false", "n"}[r.Intn(4)]})
+		}
+		if r.Intn(4) == 0 {
+			out = append(out, EnvVar{"OMIT_CREATE_TABLES", []string{"true", "false", "junk"}[r.Intn(3)]})
+		}
+		return out
+	}
+	runs := 1 + r.Intn(4)
+	for i := 0; i < runs; i++ {
+		if i > 0 && r.Intn(10) < 5 {
+			cur = append([]Dbo{}, cur...)
+			j := r.Intn(len(cur))
+			db := cur[j].DB
+			cur[j] = mutateDbo(r, cur[j])
+			cur[j].DB = db
+		}
+		g := &Glue{Kind: "init", Dbos: cur, Env: genKey(), InitFails: r.Intn(12) == 0}
 		run := Run{Glue: g}
 		if r.Intn(100) < 25 {
 			h := f.clone()
